@@ -107,6 +107,7 @@ func check(repo, prop, tier, fnKey string, keep, verbose, noEvidence bool) int {
 	P := mustLoad(repo)
 	loadT := time.Since(start)
 	prelude := loadPrelude()
+	loadPreludeCached = prelude
 	var plan Plan
 	if prop != "" {
 		data, err := os.ReadFile(filepath.Join(verifDir, "props", prop+".json"))
